@@ -12,9 +12,14 @@ def run(tier, only=None):
     t = 700 if tier == "quick" else 2400
     conds = []
     for op in range(9):
-        if op in (1, 3, 4, 5, 7):
-            for half in (1, 2):
-                conds.append(Cond("harness.h_c14", "h_history", t, part=half * 10 + op, label="h_history[depth 2, first: %s, operand half %d]" % (OPS[op], half)))
+        if op in (1, 2, 3, 4, 5):
+            for a1 in range(8):
+                conds.append(Cond("harness.h_c14", "h_history", t, part=(a1 + 1) * 10 + op, label="h_history[depth 2, first: %s on held node %d]" % (OPS[op], a1)))
+        elif op == 7:
+            for strict in (0, 1):
+                for op2 in range(9):
+                    conds.append(Cond("harness.h_c14", "h_history", t, part=(op2 + 1) * 100 + (strict + 1) * 10 + op,
+                                      label="h_history[depth 2, first: prune strict=%d, second: %s]" % (strict, OPS[op2])))
         else:
             conds.append(Cond("harness.h_c14", "h_history", t, part=op, label="h_history[depth 2, first: %s]" % OPS[op]))
     if tier != "quick":
@@ -25,7 +30,7 @@ def run(tier, only=None):
     if only:
         conds = [c for c in conds if only in c.label]
     rep.bounds = {"world": "dataset{title, creator#c1{organizationName}, contact{references c1}, bogus{title}} plus a lone node; pool grows with copies/imports",
-                  "histories": "depth 2%s over %r; operands: which held node (<= 8/10 positions), delete_old / children / strict flags; first operation pinned per process"
+                  "histories": "depth 2%s over %r; operands: which held node (<= 8/10 positions), delete_old / children / strict flags; first operation and its operand pinned per process"
                                % (" and 3" if tier != "quick" else "", OPS)}
     rep.extra["rule"] = "one CrossHair condition per first operation (per pair for depth 3); non-trivial = confirmed over all paths"
     rep.assumptions = ["histories that deliberately reuse an id are excluded (fresh ids for new nodes; re-import only after the subtree was deleted)",
